@@ -163,6 +163,57 @@ func genTree(r *Rng, ntypes int) *genQueue {
 	return root
 }
 
+// genMaxAppsTree builds deeper trees (up to three levels below root) with max-applications limits on several
+// levels, the tighter one often higher up, and dynamic parents below limited queues: a configured child of a limited
+// queue must carry a limit itself (validation), but queues created by the placement rule below a dynamic parent carry
+// none, so a limit can sit on a grandparent (or the root) while the direct parent has none.
+func genMaxAppsTree(r *Rng, ntypes int) *genQueue {
+	root := &genQueue{name: "root", parent: true, submit: "*"}
+	if r.Chance(35) {
+		root.maxApps = 1 + r.Intn(3)
+	}
+	lim := func(above int, p int) int {
+		if above > 0 {
+			return 1 + r.Intn(above) // mandatory below a limited queue, never above it
+		}
+		if r.Chance(p) {
+			return 1 + r.Intn(3)
+		}
+		return 0
+	}
+	nTop := 1 + r.Intn(2)
+	for i := 0; i < nTop; i++ {
+		q := &genQueue{name: fmt.Sprintf("q%d", i), parent: true, maxApps: lim(root.maxApps, 50)}
+		if r.Chance(35) {
+			q.dynamic = true // no configured children: dynamic leaves and dynamic parents are created below it
+			root.children = append(root.children, q)
+			continue
+		}
+		nMid := 1 + r.Intn(2)
+		for j := 0; j < nMid; j++ {
+			m := &genQueue{name: fmt.Sprintf("m%d", j), maxApps: lim(q.maxApps, 25)}
+			if r.Chance(65) {
+				m.parent = true
+				if r.Chance(40) {
+					m.dynamic = true
+				} else {
+					nl := 1 + r.Intn(2)
+					for k := 0; k < nl; k++ {
+						l := &genQueue{name: fmt.Sprintf("l%d", k), maxApps: lim(m.maxApps, 30)}
+						if r.Chance(30) {
+							l.max = r.res(ntypes, 6, 40, true)
+						}
+						m.children = append(m.children, l)
+					}
+				}
+			}
+			q.children = append(q.children, m)
+		}
+		root.children = append(root.children, q)
+	}
+	return root
+}
+
 func (q *genQueue) leaves(prefix string, out *[]string, dyn *[]string) {
 	path := q.name
 	if prefix != "" {
@@ -259,6 +310,13 @@ func (g *genState) pick(l []string) string {
 
 func (g *genState) queueName() string {
 	x := g.r.Intn(100)
+	if g.variant == "maxapps" && g.r.Chance(30) {
+		// two dynamic levels: the direct parent of the leaf is created by the placement rule and carries no limit
+		if len(g.dynPar) > 0 && g.r.Chance(60) {
+			return g.pick(g.dynPar) + fmt.Sprintf(".e%d.d%d", g.r.Intn(2), g.r.Intn(2))
+		}
+		return fmt.Sprintf("root.dynp%d.d%d", g.r.Intn(2), g.r.Intn(2))
+	}
 	switch {
 	case x < 70 && len(g.leaves) > 0:
 		return g.pick(g.leaves)
@@ -520,7 +578,7 @@ func (g *genState) opMalformed() CoreOp {
 // coreMix gives the per-mille thresholds of the op mix per variant: sched, app_add, ask, release, bound,
 // foreign, foreign_remove, node_add, node_update, drain, node_remove, app_remove, fire_ph, fire_state, reload, clean, update, malformed(rest)
 var coreMix = map[string][]int{
-	"":          {300, 100, 200, 100, 30, 30, 15, 15, 15, 15, 15, 20, 25, 25, 20, 15, 30},
+	"": {300, 100, 200, 100, 30, 30, 15, 15, 15, 15, 15, 20, 25, 25, 20, 15, 30},
 	// gang applications whose real asks are smaller than their placeholders, predicate denials that push the
 	// replacement to another node, node removals while swaps are in flight, few confirmations
 	"swap":      {330, 80, 260, 50, 10, 10, 5, 15, 10, 10, 60, 15, 30, 25, 0, 5, 15},
@@ -529,7 +587,7 @@ var coreMix = map[string][]int{
 	"reload":    {250, 110, 180, 80, 20, 10, 5, 15, 10, 10, 10, 25, 15, 25, 150, 60, 10},
 	"malformed": {200, 90, 150, 90, 30, 30, 15, 15, 15, 10, 10, 15, 15, 15, 10, 10, 15},
 	"maxapps":   {330, 170, 200, 130, 10, 5, 5, 10, 5, 5, 5, 50, 15, 40, 10, 5, 5},
-	"recover":   {330, 100, 220, 90, 30, 30, 10, 15, 10, 10, 10, 10, 20, 10, 0, 0, 10},
+	"recover":   {330, 100, 220, 90, 30, 30, 10, 15, 10, 10, 10, 10, 20, 10, 0, 0, 35},
 }
 
 func genCoreCase(rng *Rng, maxOps int, variant string) (*CoreCase, error) {
@@ -538,6 +596,9 @@ func genCoreCase(rng *Rng, maxOps int, variant string) (*CoreCase, error) {
 	}
 	if variant == "preemptdeep" {
 		return genPreemptDeep(rng, maxOps)
+	}
+	if variant == "maxappsdeep" {
+		return genMaxAppsDeep(rng, maxOps)
 	}
 	mix, ok := coreMix[variant]
 	if !ok {
@@ -551,6 +612,11 @@ func genCoreCase(rng *Rng, maxOps int, variant string) (*CoreCase, error) {
 	}
 	ntypes := 1 + rng.Intn(3)
 	tree := genTree(rng, ntypes)
+	deepTree := false
+	if variant == "maxapps" && rng.Chance(60) {
+		tree = genMaxAppsTree(rng, ntypes)
+		deepTree = true
+	}
 	preempt := rng.Chance(35)
 	policy := []string{"fair", "binpacking"}[rng.Intn(2)]
 	resDelay := rng.Chance(45)
@@ -565,6 +631,9 @@ func genCoreCase(rng *Rng, maxOps int, variant string) (*CoreCase, error) {
 		w.PredDeny = []int{20, 35, 50}[rng.Intn(3)]
 	}
 	nconf := rng.Intn(3)
+	if deepTree {
+		nconf = 0 // mutateTree knows two levels only
+	}
 	cur := tree
 	for i := 0; i < nconf; i++ {
 		cur = mutateTree(rng, cur, ntypes)
@@ -602,6 +671,7 @@ func genCoreCase(rng *Rng, maxOps int, variant string) (*CoreCase, error) {
 		emit(g.opNodeAdd())
 	}
 	nops := 8 + rng.Intn(maxOps)
+	var lastPlaced [3]string // app, key, node of the last RM placement of an existing key
 	for i := 0; i < nops; i++ {
 		x := rng.Intn(1000)
 		switch {
@@ -656,7 +726,41 @@ func genCoreCase(rng *Rng, maxOps int, variant string) (*CoreCase, error) {
 		case x < th[16]:
 			// resource change of an existing ask/allocation
 			if a := g.pick(g.apps); a != "" && len(g.keys[a]) > 0 {
-				emit(CoreOp{Kind: "alloc", App: a, Key: g.pick(g.keys[a]), Res: g.r.res(g.ntypes, 1, 7, true), AgeSec: 3600})
+				op := CoreOp{Kind: "alloc", App: a, Key: g.pick(g.keys[a]), Res: g.r.res(g.ntypes, 1, 7, true), AgeSec: 3600}
+				if lastPlaced[0] != "" && rng.Chance(50) {
+					// follow-up on the key the RM placed last: in-place resize of that allocation
+					op.App, op.Key = lastPlaced[0], lastPlaced[1]
+					if rng.Chance(50) {
+						op.Node = lastPlaced[2]
+					}
+					lastPlaced = [3]string{}
+					emit(op)
+					continue
+				}
+				if rng.Chance(45) {
+					// the RM names a node: placement of a pending ask by the RM (with or without a size change), or an
+					// update of a bound allocation that repeats / does not repeat its node
+					op.Node = g.pick(g.nodes)
+					if len(c.Steps) > 0 && rng.Chance(50) {
+						// same size as the stored ask: a pure placement
+						for _, oa := range c.Steps[len(c.Steps)-1].Obs.Apps {
+							if oa.ID != a {
+								continue
+							}
+							for _, x := range oa.Requests {
+								if x.Key == op.Key && len(x.Res) > 0 {
+									op.Res = CoreRes{}
+									for k, v := range x.Res {
+										op.Res[k] = v
+									}
+									op.Ph, op.TaskGroup = x.Ph, x.TaskGroup
+								}
+							}
+						}
+					}
+					lastPlaced = [3]string{op.App, op.Key, op.Node}
+				}
+				emit(op)
 			}
 		default:
 			emit(g.opMalformed())
@@ -960,5 +1064,134 @@ func genPreemptDeep(rng *Rng, maxOps int) (*CoreCase, error) {
 	for i := 0; i < 2; i++ {
 		emit(CoreOp{Kind: "sched"})
 	}
+	return c, nil
+}
+
+// genMaxAppsDeep scripts the churn that exercises the running-application counters on several levels: a
+// parent with limit P over leaves with limits below P (and a leaf without limit, and dynamic queues two levels
+// down), more applications than slots, and rounds of: ask -> schedule -> release everything (Completing) ->
+// the freed slot is taken by a waiting application -> the Completing application restarts with a new ask ->
+// everything released -> state timers -> removal; afterwards fresh applications must pass the gate again.
+func genMaxAppsDeep(rng *Rng, maxOps int) (*CoreCase, error) {
+	ntypes := 1
+	root := &genQueue{name: "root", parent: true, submit: "*"}
+	if rng.Chance(30) {
+		root.maxApps = 2 + rng.Intn(3)
+	}
+	pl := 2 + rng.Intn(2)
+	if root.maxApps > 0 && pl > root.maxApps {
+		pl = root.maxApps
+	}
+	par := &genQueue{name: "p", parent: true, maxApps: pl}
+	l0 := &genQueue{name: "l0", maxApps: 1 + rng.Intn(pl)}
+	l1 := &genQueue{name: "l1", maxApps: 1 + rng.Intn(pl)}
+	par.children = []*genQueue{l0, l1}
+	dynp := &genQueue{name: "d", parent: true, dynamic: true}
+	if root.maxApps > 0 || rng.Chance(50) {
+		dynp.maxApps = 1 + rng.Intn(2)
+		if root.maxApps > 0 && dynp.maxApps > root.maxApps {
+			dynp.maxApps = root.maxApps
+		}
+	}
+	root.children = []*genQueue{par, dynp}
+	w := CoreWorld{Configs: []string{coreConfigYAML(root, false, "fair")}, Seed: rng.Next()}
+	c := &CoreCase{World: w}
+	d, err := newCoreDriver(&c.World)
+	if err != nil {
+		return nil, fmt.Errorf("initial config rejected: %v\n%s", err, w.Configs[0])
+	}
+	c.Init = d.observe()
+	g := &genState{r: rng, ntypes: ntypes, gangApps: map[string][]string{}, keys: map[string][]string{}, variant: "maxapps"}
+	g.leaves = []string{"root.p.l0", "root.p.l1", "root.d.e0.x0", "root.d.e0.x1", "root.d.y0"}
+	var pending []CoreEvent
+	emit := func(op CoreOp) {
+		c.Ops = append(c.Ops, op)
+		st := d.step(&c.Ops[len(c.Ops)-1])
+		c.Steps = append(c.Steps, st)
+		for _, e := range st.Events {
+			if e.Kind == "release" && (e.TType == 2 || e.TType == 3 || e.TType == 4) {
+				pending = append(pending, e)
+			}
+		}
+	}
+	emit(CoreOp{Kind: "node_add", Node: "node-1", Cap: CoreRes{coreTypes[0]: 100}})
+	g.nodes = []string{"node-1"}
+	g.nextNode = 1
+	napps := 3 + rng.Intn(3)
+	live := map[string][]string{} // app -> keys of asks believed outstanding/bound
+	for a := 0; a < napps; a++ {
+		g.nextApp++
+		app := fmt.Sprintf("app-%d", g.nextApp)
+		g.apps = append(g.apps, app)
+		q := g.leaves[rng.Intn(len(g.leaves))]
+		if a < 2 {
+			q = g.leaves[rng.Intn(2)] // at least two applications compete below the limited parent
+		}
+		emit(CoreOp{Kind: "app_add", App: app, Queue: q, User: "u1", Groups: []string{"g1"}})
+	}
+	ask := func(app string) {
+		k := g.newKey(app)
+		live[app] = append(live[app], k)
+		emit(CoreOp{Kind: "alloc", App: app, Key: k, Res: CoreRes{coreTypes[0]: 1}, AgeSec: 3600})
+	}
+	releaseAll := func(app string) {
+		for _, k := range live[app] {
+			emit(CoreOp{Kind: "release", App: app, Key: k, TType: 1})
+		}
+		live[app] = nil
+	}
+	nrounds := 3 + rng.Intn(maxOps/8+1)
+	for r := 0; r < nrounds; r++ {
+		switch rng.Intn(7) {
+		case 0, 1:
+			ask(g.pick(g.apps))
+		case 2:
+			releaseAll(g.pick(g.apps))
+		case 3:
+			// the classic: A done (Completing), waiting B takes the slot, A restarts
+			a := g.pick(g.apps)
+			releaseAll(a)
+			emit(CoreOp{Kind: "sched"})
+			emit(CoreOp{Kind: "sched"})
+			ask(a)
+		case 4:
+			emit(CoreOp{Kind: "fire_state", App: g.pick(g.apps)})
+		case 5:
+			if rng.Chance(30) {
+				a := g.pick(g.apps)
+				emit(CoreOp{Kind: "app_remove", App: a})
+				live[a] = nil
+			} else {
+				ask(g.pick(g.apps))
+			}
+		default:
+			g.nextApp++
+			app := fmt.Sprintf("app-%d", g.nextApp)
+			g.apps = append(g.apps, app)
+			emit(CoreOp{Kind: "app_add", App: app, Queue: g.pick(g.leaves), User: "u1", Groups: []string{"g1"}})
+			ask(app)
+		}
+		for i := rng.Intn(3); i > 0; i-- {
+			emit(CoreOp{Kind: "sched"})
+		}
+	}
+	// drain: everything released, then fresh applications must pass the gate
+	for _, a := range g.apps {
+		releaseAll(a)
+	}
+	if rng.Chance(50) {
+		for _, a := range g.apps {
+			emit(CoreOp{Kind: "fire_state", App: a})
+		}
+	}
+	for i := 0; i < 2; i++ {
+		g.nextApp++
+		app := fmt.Sprintf("app-%d", g.nextApp)
+		g.apps = append(g.apps, app)
+		emit(CoreOp{Kind: "app_add", App: app, Queue: g.leaves[rng.Intn(2)], User: "u1", Groups: []string{"g1"}})
+		ask(app)
+		emit(CoreOp{Kind: "sched"})
+	}
+	emit(CoreOp{Kind: "sched"})
 	return c, nil
 }
